@@ -223,6 +223,8 @@ class FockBackend(BaseFock):
                 out_str = [indices[: 2 * num_modes]]
                 einstr = "".join(left_str + [","] + right_str + ["->"] + out_str)
                 rho = np.einsum(einstr, s, s.conj())
+                # the reduced state is returned as a density matrix
+                pure = False
             else:
                 rho = s
 
